@@ -5,6 +5,7 @@ import os
 import random
 import re
 
+from ..engines import noise
 from ..gen import jsonvals, keys as gkeys
 from ..monitors import boundary, probes
 from ..refs import canonjson
@@ -203,6 +204,8 @@ def run_values(spec, rec, lib):
     for i in range(spec["count"]):
         if i % 7 == 3:
             poison(lib, rng, rec)
+        if i % 40 == 11:
+            noise.tick(lib, rng, spec.get("scratch"))
         r = rng.random()
         if r < 0.5:
             v = jsonvals.rand_value(rng, 0, 4, 4)
